@@ -1,6 +1,7 @@
 package harness
 
 import (
+	"sort"
 	"context"
 	"encoding/json"
 	"fmt"
@@ -824,6 +825,173 @@ func streamTimedCases(t *testing.T, st *Stats) {
 			p := writeScenario("C11", sig, what, []string{"subscription " + fmt.Sprintf("%+v", c.cfg) + fmt.Sprintf(" delivery delay %d ns", c.delay),
 				fmt.Sprintf("StreamingPull{max_outstanding_messages %d}", c.limit), "publish, 0.6 s (2.5 s in the first case), publish, 2 s; nothing is acknowledged"})
 			st.Violate(Violation{What: "[" + sig + "] " + what, Replay: p, FoundInput: true, Sig: sig})
+			return
+		}
+	}
+}
+
+// filterEnforced (C17): "what was set is what Get returns and what is enforced" — the filter in force when
+// a message is published decides, also right after an UpdateSubscription replaced it and after the name
+// was deleted and made again with another filter.
+func filterEnforced(t *testing.T, st *Stats) {
+	what := ""
+	synctest.Test(t, func(t *testing.T) {
+		w := NewWorld(t, Seed())
+		defer w.Close()
+		cfg := func(f string) *SubCfg { return &SubCfg{Topic: "t", TTL: 24 * 3600 * Sec, MTTL: 3600 * Sec, Filter: f} }
+		w.Exec(Op{K: "create_topic", Topic: "t"})
+		w.Exec(Op{K: "create_sub", Sub: "s", Cfg: cfg("attributes:a")})
+		pub := func(n int, k string) {
+			w.Exec(Op{K: "publish", Topic: "t", Via: "handler", Msgs: []MsgSpec{{N: n, Attrs: map[string]string{k: "1"}}}})
+			time.Sleep(time.Millisecond)
+		}
+		got := func() []int {
+			var out []int
+			r := w.Exec(Op{K: "pull", Sub: "s", Max: 20, Via: "handler"})
+			for _, d := range r.Delivered {
+				if n, ok := nOfPayload(d); ok {
+					out = append(out, n)
+				}
+			}
+			sort.Ints(out)
+			var refs []Ref
+			for _, n := range out {
+				refs = append(refs, Ref{N: n, Sub: "s"})
+			}
+			if len(refs) > 0 {
+				w.Exec(Op{K: "ack", Refs: refs})
+			}
+			return out
+		}
+		pub(0, "a")
+		pub(1, "b")
+		if g := got(); fmt.Sprint(g) != "[0]" {
+			what = fmt.Sprintf("setup: filter attributes:a, published 0{a} 1{b}: pulled %v", g)
+			return
+		}
+		nf := "attributes:b"
+		u := w.Exec(Op{K: "rpc", Rpc: &Rpc{Kind: "updateSub", Has: true, Paths: []string{"filter"}, Sub: &SubReq{Name: SubName("s"), Topic: TopicName("t"), Filter: nf}}})
+		if u.Resp != "ok" {
+			what = "setup: UpdateSubscription(filter): " + u.Resp
+			return
+		}
+		g1 := w.Exec(Op{K: "rpc", Rpc: &Rpc{Kind: "getSub", Name: SubName("s")}})
+		pub(2, "a")
+		pub(3, "b")
+		if g := got(); fmt.Sprint(g) != "[3]" {
+			what = fmt.Sprintf("subscription s created with filter attributes:a; UpdateSubscription(mask filter) set attributes:b and was answered OK (GetSubscription: %s); then 2{a:1} and 3{b:1} are published: a Pull returns messages %v, the filter in force says [3]", g1.Body, g)
+			return
+		}
+		w.Exec(Op{K: "delete_sub", Sub: "s"})
+		w.Exec(Op{K: "create_sub", Sub: "s", Cfg: cfg("attributes:c")})
+		pub(4, "b")
+		pub(5, "c")
+		if g := got(); fmt.Sprint(g) != "[5]" {
+			what = fmt.Sprintf("subscription s (filter attributes:b) is deleted and created again with filter attributes:c; then 4{b:1} and 5{c:1} are published: a Pull returns messages %v, the filter in force says [5]", g)
+		}
+	})
+	st.Count("filter_enforced_cases", 1)
+	if strings.HasPrefix(what, "setup:") {
+		st.Count("filter_enforced_setup_failed", 1)
+		return
+	}
+	if what != "" {
+		p := writeScenario("C17", "filter-not-enforced", what, []string{"create s (filter attributes:a); publish 0{a}, 1{b}; Pull -> [0]", "UpdateSubscription(s, filter attributes:b); publish 2{a}, 3{b}; Pull -> [3]",
+			"delete s; create s (filter attributes:c); publish 4{b}, 5{c}; Pull -> [5]"})
+		st.Violate(Violation{What: "[filter-not-enforced] " + what, Replay: p, FoundInput: true, Sig: "filter-not-enforced"})
+	}
+}
+
+// streamPruneInvisible (C15): a streaming consumer sees the same whether or not the job that deletes
+// expired deliveries has run. Room for one message; the message the stream was sent is never acknowledged
+// and its retention ends; a second message is published. With and without a round of the job in between,
+// the stream's sends are the same.
+func streamPruneInvisible(t *testing.T, st *Stats) {
+	run := func(withJob bool) (sent int, problem string) {
+		synctest.Test(t, func(t *testing.T) {
+			w := NewWorld(t, Seed())
+			defer w.Close()
+			w.Exec(Op{K: "create_topic", Topic: "t"})
+			w.Exec(Op{K: "create_sub", Sub: "s", Cfg: &SubCfg{Topic: "t", TTL: 24 * 3600 * Sec, MTTL: 120 * Sec}})
+			time.Sleep(time.Millisecond)
+			w.Ctl.mu.Lock()
+			w.Ctl.tick = 0
+			w.Ctl.mu.Unlock()
+			conn := &scriptConn{closed: make(chan struct{}), out: map[uuid.UUID]int{}, limit: actions.FlowControl{MaxMessages: 1, MaxBytes: 1 << 40}, ctl: w.Ctl, greqs: make(chan *pubsubpb.StreamingPullRequest)}
+			ctx, cancel := context.WithCancel(WithLabel(context.Background(), "stream"))
+			defer cancel()
+			w.Ctl.SpinGuard("stream", 200)
+			fin := make(chan error, 1)
+			go func() { fin <- w.Api().Sub.StreamingPull(&grpcStream{c: conn, ctx: ctx}) }()
+			select {
+			case conn.greqs <- &pubsubpb.StreamingPullRequest{Subscription: SubName("s"), StreamAckDeadlineSeconds: 10, MaxOutstandingMessages: 1, MaxOutstandingBytes: 1 << 30}:
+			case err := <-fin:
+				problem = fmt.Sprintf("setup: the stream ended before its initial request: %v", err)
+				return
+			}
+			synctest.Wait()
+			w2 := *w
+			w2.execInner(Op{K: "publish", Topic: "t", Msgs: []MsgSpec{{N: 0}}}, &Result{T: w.Now()})
+			synctest.Wait()
+			time.Sleep(130 * time.Second) // the retention (120 s) of message 0 ends, unacknowledged
+			synctest.Wait()
+			if withJob {
+				if _, err, ok := services.PruneRunOnceForVerif(context.Background(), "prune-expired-deliveries", actions.PruneCommonParams{MinAge: 0, MaxDelete: 100}, w.Client); err != nil || !ok {
+					problem = fmt.Sprintf("setup: prune-expired-deliveries: %v (registered=%v)", err, ok)
+					return
+				}
+			}
+			w2.execInner(Op{K: "publish", Topic: "t", Msgs: []MsgSpec{{N: 1}}}, &Result{T: w.Now()})
+			synctest.Wait()
+			time.Sleep(3 * time.Second)
+			synctest.Wait()
+			conn.mu.Lock()
+			seen := map[uuid.UUID]bool{}
+			for _, s := range conn.sent {
+				seen[s.id] = true
+			}
+			sent = len(seen)
+			conn.mu.Unlock()
+			w.Ctl.SpinGuard("", 0)
+			cancel()
+			w.Ctl.SpinReset()
+			synctest.Wait()
+		})
+		return
+	}
+	a, pa := run(false)
+	b, pb := run(true)
+	st.Count("stream_prune_invisible_cases", 1)
+	if pa != "" || pb != "" {
+		st.Count("stream_prune_invisible_setup_failed", 1)
+		return
+	}
+	if a != b {
+		what := fmt.Sprintf("StreamingPull with max_outstanding_messages=1 on a subscription with 120 s retention: message 0 is sent and never acknowledged; 130 s later (its retention over) message 1 is published; without a round of prune-expired-deliveries in between the stream has sent %d distinct messages 3 s later, with one it has sent %d: running the job changed what the client observes", a, b)
+		p := writeScenario("C15", "prune-visible-on-stream", what, []string{"subscription s (retention 120 s); StreamingPull{max_outstanding_messages 1}", "publish 0; 130 s pass (0 expires unacknowledged)",
+			"[variant: one round of prune-expired-deliveries, minimum age 0]", "publish 1; 3 s pass", "the number of distinct messages the stream has sent is the same in both variants"})
+		st.Violate(Violation{What: "[prune-visible-on-stream] " + what, Replay: p, FoundInput: true, Sig: "prune-visible-on-stream"})
+	}
+}
+
+// streamAckNotLost (C03): an acknowledgement sent on a stream has no answer of its own; when the storage
+// fails while it is applied, the stream has to end with an error — a stream that stays open tells the
+// client its acknowledgement is done, and the message must then never come again.
+func streamAckNotLost(t *testing.T, st *Stats) {
+	prefix, _ := faultScenario()
+	b0, full, n, err0 := streamRequestFaulted(t, Seed(), prefix, "", 0)
+	if err0 != nil || full == b0 {
+		st.Count("stream_ack_setup_failed", 1)
+		return
+	}
+	for k := 1; k <= n; k++ {
+		before, after, _, err := streamRequestFaulted(t, Seed(), prefix, "fail", k)
+		st.Count("stream_ack_fault_runs", 1)
+		if after == before && err == nil {
+			what := fmt.Sprintf("a StreamingPull request carried ack_ids=[c/0] (and zero deadlines for two more deliveries); statement %d of %d of its handling failed in the storage, nothing was applied — and the stream stayed open without an error: the client takes its acknowledgement for done, the message will be delivered again", k, n)
+			p := writeReplay(fmt.Sprintf("C03-stream-ack-lost-%d.json", Seed()), replayFile{Property: "C03", Sig: "stream-ack-lost", Seed: Seed(), Ops: prefix, What: what,
+				Note: fmt.Sprintf("after the operations: a MessageStreamer on subscription c receives one request {ack: [c/0], nack: [b/0, a/0]}; statement %d of its handling fails", k)})
+			st.Violate(Violation{What: "[stream-ack-lost] " + what, Replay: p, FoundInput: true, Sig: "stream-ack-lost"})
 			return
 		}
 	}
